@@ -30,6 +30,9 @@ def run(ctx):
     ctx.add_extra_unit(os.path.join(bm.VERIF, 'fixtures', 'instantiate_all.cpp'))
     for cfg, prog in ctx.programs().items():
         from .. import lanes
+        from .. import bigpred
+        nbp = bigpred.rule_is_zero(ctx, cfg, prog)
+        ctx.count('R-PRED/bigint is_zero instantiations decided[%s]' % cfg, nbp)
         nl = lanes.rule_bigendian_io(ctx, cfg, prog)
         ctx.floor('R-LANES byte-order routines[%s]' % cfg, nl, 3)
         fl = fieldlayer.rule_field_layer(ctx, cfg, prog)
